@@ -202,3 +202,14 @@ Proof.
   - destruct (P_seq_v E sendlen displ inb out) as [_ Hv]. rewrite (Hv H H0).
     apply (Hsv 0 [inb] [sendlen] [displ] [out]); simpl; [lia|repeat split; lia].
 Qed.
+
+(* ------------------------------------------------------------------ a receive object re-used for a second (longer or SHORTER) message *)
+Lemma P_rrecv_reuse : forall (E : Type) (merge : E -> E -> E) (d : E) tsize (s1 s2 data : list E), 0 < tsize ->
+  (exists r1 r2, c07_rrecv E merge d tsize s1 data = Some r1 /\ c07_rrecv E merge d tsize s2 r1 = Some r2 /\ length r2 = length s2) /\
+  (c07_rrecv E (idm E) d tsize s1 data = Some s1 /\ c07_rrecv E (idm E) d tsize s2 s1 = Some s2).
+Proof.
+  intros E merge d tsize s1 s2 data H. split.
+  - destruct (P_rrecv_len E merge d tsize s1 data H) as [r1 [H1 _]].
+    destruct (P_rrecv_len E merge d tsize s2 r1 H) as [r2 [H2 [L2 _]]]. exists r1, r2. auto.
+  - split; now apply P_rrecv_end_to_end.
+Qed.
